@@ -1,7 +1,7 @@
 ----------------------------- MODULE MC_Options -----------------------------
 EXTENDS Options, Json
-Names == {"A", "B", "C", "D"}
-NamesQ == {"A", "B", "C"}
+Names == {"A", "B", "C", "U"}
+NamesQ == {"A", "B", "U"}
 MaxLen == 4
 MaxLenQ == 3
 Entries == Names \cup {"nil"}
@@ -36,7 +36,8 @@ RecoverChains == { <<Ics(<<"R">>)>>, <<Ics(<<"A">>), Ics(<<"R">>)>>, <<Ics(<<"R"
                    <<Ics(<<"R">>), Ics(<<"A", "B">>)>>, <<Group(<<Ics(<<"A">>), Ics(<<"R">>)>>), Ics(<<"B">>)>>,
                    <<Ics(<<"A">>)>>, <<>>,
                    <<Ics(<<"R">>), Ics(<<>>)>>, <<Ics(<<>>), Ics(<<"R">>)>>, <<Ics(<<"R">>), Group(<<Ics(<<>>)>>), Ics(<<"A">>)>>,
-                   <<Ics(<<"A">>), Ics(<<"R">>), Ics(<<>>)>> }
+                   <<Ics(<<"A">>), Ics(<<"R">>), Ics(<<>>)>>,
+                   <<Ics(<<"A", "U">>), Ics(<<"R">>)>>, <<Ics(<<"R">>), Ics(<<"U", "A">>)>> }
 Points(k) == IF k = "unary" THEN {0} ELSE IF k = "client" THEN {0, 1} ELSE {0, 1, 2}
 RecInit ==
   \E o \in RecoverChains, k \in {"unary", "client", "server", "bidi"}, p \in {"connect", "grpc", "grpcweb"},
